@@ -289,10 +289,9 @@ class UnionMarshaller(AbstractMarshaller[UnionT], tp.Generic[UnionT]):
         if self.nullable and val is None:
             return val
 
+        # Any error a member routine raises is a rejection of the input by that member.
         for routine in self.ordered_routines:
-            with contextlib.suppress(
-                ValueError, TypeError, SyntaxError, AttributeError
-            ):
+            with contextlib.suppress(Exception):
                 unmarshalled = routine(val)
                 return unmarshalled
 
